@@ -543,6 +543,17 @@ pub fn run(tier: Tier, started: Instant) -> Vec<Part> {
     parts
 }
 
+/// Which signatures of the call-level oracle are violations of which property: everything for C18;
+/// frontier / key version / no abort for C04; for C03 an entry the copy holds after the call that
+/// is neither the one it held nor the one supplied (value, version or status altered on the way).
+fn reportable_under(property: &str, sig: &str) -> bool {
+    match property {
+        "C18" => true,
+        "C03" => sig == "key-set-mismatch",
+        _ => sig == "frontier-lowered" || sig == "key-version-decreased" || sig.starts_with("panic"),
+    }
+}
+
 /// For C04 the same calls are run and only the frontier / no-abort clauses are reported.
 pub fn run_for(property: &'static str, tier: Tier, started: Instant) -> Vec<Part> {
     let vmax = tier.pick(4u64, 5u64);
@@ -565,7 +576,7 @@ pub fn run_for(property: &'static str, tier: Tier, started: Instant) -> Vec<Part
                 for position in 0..4u8 {
                     if let Some((what, sig)) = one_case(existing, s, position, &mut t) {
                         // only what the running check reports counts towards the cap
-                        let reportable = property == "C18" || sig == "frontier-lowered" || sig == "key-version-decreased" || sig.starts_with("panic");
+                        let reportable = reportable_under(property, &sig);
                         if reportable && v.len() < 4 {
                             v.push(Viol { what, sig, replay: json!({"engine":"catchup","existing":existing,"supplied":supplied_json(s),"position":position}) });
                         }
@@ -582,7 +593,7 @@ pub fn run_for(property: &'static str, tier: Tier, started: Instant) -> Vec<Part
     }
     viols.sort_by_key(|v| v.replay.to_string().len());
     for v in viols {
-        if property != "C18" && !(v.sig == "frontier-lowered" || v.sig == "key-version-decreased" || v.sig.starts_with("panic")) {
+        if !reportable_under(property, &v.sig) {
             continue;
         }
         part.violation(property, v.what, v.sig, v.replay);
